@@ -416,6 +416,9 @@ fn returning(s: &S) -> ReturningClause {
     let l = s.args();
     match l[0].atom() {
         "all" => Query::returning().all(),
+        // one column / one expression: through the singular constructor for part of the cases
+        "cols" if l.len() == 2 && exprs::shash(s) % 2 == 1 => Query::returning().column(exprs::colref(&l[1])),
+        "exprs" if l.len() == 2 && exprs::shash(s) % 2 == 1 => Query::returning().expr(expr(&l[1])),
         "cols" => Query::returning().columns(l[1..].iter().map(exprs::colref).collect::<Vec<_>>()),
         "exprs" => Query::returning().exprs(l[1..].iter().map(expr).collect::<Vec<_>>()),
         _ => panic!("returning"),
@@ -435,10 +438,18 @@ fn onconflict(s: &S) -> OnConflict {
                 oc = OnConflict::columns(l.iter().map(id).collect::<Vec<_>>());
             }
             "texpr" => {
-                oc.expr(expr(&l[0]));
+                if exprs::shash(c) % 2 == 0 {
+                    oc.expr(expr(&l[0]));
+                } else {
+                    oc.exprs([expr(&l[0])]);
+                }
             }
             "twhere" => {
-                oc.target_and_where(expr(&l[0]));
+                match exprs::shash(c) % 3 {
+                    0 => oc.target_and_where(expr(&l[0])),
+                    1 => oc.target_and_where_option(Some(expr(&l[0]))),
+                    _ => oc.target_cond_where(expr(&l[0])),
+                };
             }
             "nothing" => {
                 oc.do_nothing();
@@ -447,13 +458,25 @@ fn onconflict(s: &S) -> OnConflict {
                 oc.do_nothing_on(l.iter().map(id).collect::<Vec<_>>());
             }
             "updcol" => {
-                oc.update_column(id(&l[0]));
+                if exprs::shash(c) % 2 == 0 {
+                    oc.update_column(id(&l[0]));
+                } else {
+                    oc.update_columns([id(&l[0])]);
+                }
             }
             "updexpr" => {
-                oc.value(id(&l[0]), expr(&l[1]));
+                if exprs::shash(c) % 2 == 0 {
+                    oc.value(id(&l[0]), expr(&l[1]));
+                } else {
+                    oc.values([(id(&l[0]), expr(&l[1]))]);
+                }
             }
             "awhere" => {
-                oc.action_and_where(expr(&l[0]));
+                match exprs::shash(c) % 3 {
+                    0 => oc.action_and_where(expr(&l[0])),
+                    1 => oc.action_and_where_option(Some(expr(&l[0]))),
+                    _ => oc.action_cond_where(expr(&l[0])),
+                };
             }
             _ => panic!("onconflict clause"),
         }
@@ -555,17 +578,33 @@ pub fn update(s: &S) -> UpdateStatement {
                 q.from(tref(&l[0]));
             }
             "value" => {
-                q.value(id(&l[0]), expr(&l[1]));
+                if exprs::shash(c) % 2 == 0 {
+                    q.value(id(&l[0]), expr(&l[1]));
+                } else {
+                    q.values([(id(&l[0]), expr(&l[1]))]);
+                }
             }
             "andwhere" => {
-                q.and_where(expr(&l[0]));
+                if exprs::shash(c) % 2 == 0 {
+                    q.and_where(expr(&l[0]));
+                } else {
+                    q.and_where_option(Some(expr(&l[0])));
+                }
             }
             "condwhere" => {
                 q.cond_where(conds::cond(&l[0]));
             }
             "orderby" => {
+                let is_col = matches!(l[0].head(), "col" | "star" | "tstar");
+                let alt = exprs::shash(c) % 2 == 1 && is_col;
                 if l.len() > 2 {
-                    q.order_by_expr_with_nulls(expr(&l[0]), order(&l[1]), nulls(&l[2]));
+                    if alt {
+                        q.order_by_with_nulls(exprs::colref(&l[0]), order(&l[1]), nulls(&l[2]));
+                    } else {
+                        q.order_by_expr_with_nulls(expr(&l[0]), order(&l[1]), nulls(&l[2]));
+                    }
+                } else if alt {
+                    q.order_by(exprs::colref(&l[0]), order(&l[1]));
                 } else {
                     q.order_by_expr(expr(&l[0]), order(&l[1]));
                 }
